@@ -103,14 +103,14 @@ impl Prop for C01 {
         ]
     }
     fn call_cap_s(&self, scope: &str) -> u64 {
-        if scope == "growth" {
+        if scope == "growth" || scope == "deep-groups" {
             600
         } else {
             20
         }
     }
     fn shrinkable(&self, scope: &str) -> bool {
-        scope != "growth" && scope != "configs"
+        scope != "growth" && scope != "configs" && scope != "deep-groups"
     }
     fn scopes(&self, tier: Tier, seed: u64) -> Vec<Scope> {
         let quick = tier == Tier::Quick;
@@ -241,6 +241,23 @@ impl Prop for C01 {
                 }
             }
         }));
+        v.push(Scope::new("touching-shapes", "catalogue circles touching or overlapping each other, circles stuck to boxes, arcs from corrupted circles and circle parts (several catalogue matches in one group)", |f| {
+            for d in shapes::touching_circles_family() {
+                f(Case::s(d));
+            }
+            for d in shapes::circle_parts_family() {
+                f(Case::s(d));
+            }
+            for d in ["()()", "(_)(_)", "()\n()", "(_)(_)(_)", "+--+()\n|  |\n+--+", "()+--+\n  |  |\n  +--+", "(())", "()()()()"] {
+                f(Case::s(d));
+            }
+        }));
+        v.push(Scope::new("deep-groups", "one connected group of 30 000 (thorough 60 000) characters: a rule, a word, a vertical line, on a 1 MiB stack (recursion that grows with the group size overflows)", move |f| {
+            let n: i64 = if quick { 30_000 } else { 60_000 };
+            for fam in [1i64, 7, 2] {
+                f(Case::sn("", vec![fam, n]));
+            }
+        }));
         v.push(Scope::new("bullets", "bullets and arrow heads after lines of every slope and every line character, lengths 1..12", |f| {
             for d in 0..8u8 {
                 for lc in ['-', '~', '=', '_', '|', ':', '!', '/', '\\', '+', '.', '\'', '─', '│', '╱', '╲'] {
@@ -315,6 +332,20 @@ impl Prop for C01 {
                         cx.conv_entry(doc, &Sett::default_(), e);
                         cx.compared();
                     }
+                }
+            }
+            "deep-groups" => {
+                let (fam, n) = (case.n[0], case.n[1] as usize);
+                let input = growth_input(fam, if fam == 2 { n / 4 } else { n });
+                crate::runner::arm_watchdog_pub(input.len() * 3);
+                cx.conversions += 1;
+                match timed(&input) {
+                    Ok(t) => {
+                        cx.compared();
+                        cx.outcome(&("deep", fam));
+                        cx.tally_n(&format!("deep-group-ms {}", FAMILY_NAMES[fam as usize]), (t * 1000.0) as u64);
+                    }
+                    Err(e) => cx.fail("panic", format!("one connected group of {} characters ({}): {}", n, FAMILY_NAMES[fam as usize], e)),
                 }
             }
             "growth" => {
